@@ -241,7 +241,84 @@ func genC16Text(c *core.Ctx, depth int) string {
 	return sb.String()
 }
 
+// emptyName: a wire tag made of a placeholder that resolves to the empty text (key absent or an empty map, default
+// empty) is processed as if it had been written wire:"" - the point is wired by type.
+func (p c16) emptyName(c *core.Ctx) {
+	g := world.NewG(c.Rng)
+	a := g.AddNode(0, "store-a")
+	g.AddNode(3, "other-b")
+	g.ShuffleOrders()
+	g.Sc.Config = []string{"x: 1\n", "store:\n  impl: {}\n", "store:\n  impl: []\n", "store:\n  other: y\n"}[c.Rng.Intn(4)]
+	text := []string{"${store.impl:}", "${store.impl:${store.fallback:}}", "${store.impl:}${store.more:}", "${store.${nokey:impl}:}"}[c.Rng.Intn(4)]
+	required := c.Rng.Intn(2) == 0
+	tag := text
+	if !required {
+		tag += ",required=false"
+	}
+	pt := reflect.TypeOf(world.Palette[0].New())
+	fields := []world.FieldSpec{{Name: "F", Type: pt, Tag: world.WireTag("wire", tag)}, {Name: "Twin", Type: pt, Tag: `wire:""`}}
+	h := world.NewHolder(world.BuildStruct(fields))
+	r := world.Start(g.Sc, world.Options{Extra: []any{h}, NoTracer: true, BinderBudget: 20000})
+	c.Count("starts", 1)
+	c.Count("wire_tags_resolving_to_the_empty_text", 1)
+	detail := map[string]any{"tag": world.WireTag("wire", tag), "config": g.Sc.Config, "outcome": core.Short(r.OutcomeDetail(), 400)}
+	hv := reflect.ValueOf(h).Elem()
+	f, twin := hv.Field(0).Interface(), hv.Field(1).Interface()
+	if r.Outcome() != "ok" || f != twin || f != any(r.Nodes[a]) {
+		c.Fail("", fmt.Sprintf("tag %s resolves to the empty text: start %s, field holds %v, its twin written wire:\"\" holds %v", world.WireTag("wire", tag), r.Outcome(), f, twin), detail)
+		return
+	}
+	c.Nontrivial("emptyname|" + text + g.Sc.Config + fmt.Sprint(required))
+}
+
+// longValue: the configured value of a placeholder may be long (a certificate, a key, a JSON text) whatever the
+// length of the tag that quotes it.
+func (p c16) longValue(c *core.Ctx) {
+	n := []int{900, 3990, 4100, 5000, 9000, 26001, 70000}[c.Rng.Intn(7)] + c.Rng.Intn(50)
+	var sb strings.Builder
+	for sb.Len() < n {
+		sb.WriteString(plainWords[c.Rng.Intn(len(plainWords))])
+		sb.WriteByte("-_ /+"[c.Rng.Intn(5)])
+	}
+	val := "v" + strings.TrimSpace(sb.String()) + "e"
+	key := []string{"c", "k", "tls.certificate.bundle"}[c.Rng.Intn(3)]
+	b, _ := yaml.Marshal(setPath(map[string]any{"pre": "p"}, key, val))
+	form := c.Rng.Intn(5)
+	tag, want := "", val
+	switch form {
+	case 0:
+		tag = fmt.Sprintf("value:%q", "${"+key+"}")
+	case 1:
+		tag = fmt.Sprintf("prop:%q", key)
+	case 2:
+		tag = fmt.Sprintf("value:%q", "${"+key+":d}")
+	case 3:
+		tag, want = fmt.Sprintf("value:%q", "${pre}-${"+key+"}"), "p-"+val
+	default:
+		tag = fmt.Sprintf("value:%q", "${"+key+"},required=false")
+	}
+	h := world.NewHolder(world.BuildStruct([]world.FieldSpec{{Name: "F", Type: reflect.TypeOf(""), Tag: tag}}))
+	r := world.Start(&world.Scenario{Config: string(b)}, world.Options{Extra: []any{h}, NoTracer: true, BinderBudget: 20000})
+	c.Count("starts", 1)
+	c.Count("long_configured_values", 1)
+	got := reflect.ValueOf(h).Elem().Field(0).String()
+	if r.Outcome() != "ok" || got != want {
+		c.Fail("", fmt.Sprintf("tag %s with a configured value of %d bytes: start %s, field holds %d bytes (%q...): %s", tag, len(val), r.Outcome(), len(got), core.Short(got, 40), core.Short(r.OutcomeDetail(), 200)),
+			map[string]any{"tag": tag, "value_length": len(val), "value_head": core.Short(val, 200)})
+		return
+	}
+	c.Nontrivial(fmt.Sprint("longvalue|", form, key, n))
+}
+
 func (p c16) Run(c *core.Ctx) {
+	if c.Index%20 == 1 {
+		p.emptyName(c)
+		return
+	}
+	if c.Index%20 == 13 {
+		p.longValue(c)
+		return
+	}
 	if c.Index%10 == 9 {
 		p.changing(c)
 		return
